@@ -78,9 +78,46 @@ def _run_op(op, via, operands, rules):
     return list(t_intersection(shapes))
 
 
-def _evaluate(op, via, operands, rules):
+def _direct_engine(op, operands, rules):
+    """The same operation asked of skia-pathops directly (own construction of the engine paths from absolute
+    M/L/Q/C/Z operands, no picosvg code involved) -> absolute command list."""
+    import pathops
+
+    FT = {"nonzero": pathops.FillType.WINDING, "evenodd": pathops.FillType.EVEN_ODD}
+    FN = {"M": "moveTo", "L": "lineTo", "Q": "quadTo", "C": "cubicTo", "Z": "close"}
+    paths = []
+    for o, ru in zip(operands, rules):
+        p = pathops.Path(fillType=FT[ru])
+        for c, a in o:
+            if c == "Z":
+                p.close()
+            else:
+                getattr(p, FN[c])(*a)
+        paths.append(p)
+    if op == "remove_overlaps" or len(paths) == 1:
+        acc = paths[0]
+        acc.simplify(fix_winding=True)
+    else:
+        OP = {"union": pathops.PathOp.UNION, "intersection": pathops.PathOp.INTERSECTION, "difference": pathops.PathOp.DIFFERENCE}[op]
+        acc = paths[0]
+        for q in paths[1:]:
+            acc = pathops.op(acc, q, OP, fix_winding=True)
+    VN = {"moveTo": "M", "lineTo": "L", "qCurveTo": "Q", "curveTo": "C", "closePath": "Z", "endPath": None}
+    out = []
+    for verb, pts in acc.segments:
+        c = VN[verb]
+        if c is None:
+            continue
+        if c == "Q" and len(pts) != 2:
+            raise ValueError("unexpected quadratic spline")
+        out.append((c, tuple(float(v) for pt in pts for v in pt)))
+    return out
+
+
+def _evaluate(op, via, operands, rules, res=None):
     """returns (message or None, stats)"""
-    res = _run_op(op, via, operands, rules)
+    if res is None:
+        res = _run_op(op, via, operands, rules)
     op_edges = [_edges(o) for o in operands]
     rA, rB = _edges(res)
     # sample points
@@ -140,6 +177,11 @@ def check_op(case) -> Result:
     # path twice) make skia-pathops return a wrong region; such tuples are counted and not judged
     if case.get("repeat_rule"):
         r.classes += ("same-outline-under-both-rules",)
+    spelled = operands
+    if any(c not in "MLQCZ" for o in operands for c, _ in o):
+        # operands in free spelling (relative, H/V): helpers that talk to the engine directly get the absolute
+        # polygonal form computed by the reference interpreter; picosvg gets the spelling as given
+        operands = [_polygonal(o) if any(c not in "MLQCZ" for c, _ in o) else o for o in operands]
     if not case.get("pinned") and not case.get("repeat_rule") and _share_edge(operands):
         r.excluded = "ENGINE-COINCIDENT"
         r.rejected = "excluded:coincident-operand-edges"
@@ -148,7 +190,7 @@ def check_op(case) -> Result:
     if refuses:
         r.classes += ("engine-refuses",)
     try:
-        msg, stats = _evaluate(op, via, operands, rules)
+        msg, stats = _evaluate(op, via, operands, rules, res=(_run_op(op, via, spelled, rules) if spelled is not operands else None))
     except svg_pathops.pathops.PathOpsError:
         r.nontrivial = True
         r.classes += ("PathOpsError-propagated",)
@@ -171,8 +213,17 @@ def check_op(case) -> Result:
             except Exception:
                 pm = "x"
             if pm is None:
-                r.excluded = "ENGINE"
-                return r
+                # the polygonal twin is computed correctly, so curves are involved.  Engine or wrapper?  Ask the
+                # engine directly, with paths built by this check: if its answer is right where picosvg's is
+                # wrong, the wrapper (not skia-pathops) lost or altered something on the way
+                try:
+                    dm, _ = _evaluate(op, via, operands, rules, res=_direct_engine(op, operands, rules))
+                except Exception:
+                    dm = "x"
+                if dm is not None:
+                    r.excluded = "ENGINE"
+                    return r
+                r.classes += ("direct-engine-right",)
         r.bad("wrong-region", f"{op} via {via} rules={rules}: {msg}; operands={operands!r}"[:3000])
     return r
 
@@ -249,7 +300,50 @@ _REFUSERS = _refusers()
 
 @st.composite
 def operand(draw):
-    kind = draw(st.sampled_from(["convex", "star", "ring-same", "ring-opp", "random-poly", "random-poly", "open", "ellipse", "curvy", "multi", "refuser", "bowtie", "opposite-pair"]))
+    kind = draw(st.sampled_from(["convex", "star", "ring-same", "ring-opp", "random-poly", "random-poly", "open", "ellipse", "curvy", "multi", "refuser", "bowtie", "opposite-pair", "loop", "minified"]))
+    if kind == "loop":
+        # a contour drawn by ONE cubic that returns to its start (teardrop / petal): no segment of it is
+        # "zero-length" although its end points coincide; optionally next to an ordinary square
+        x0, y0 = draw(st.integers(10, 60)), draw(st.integers(20, 70))
+        a, b = draw(st.integers(20, 45)), draw(st.integers(15, 40))
+        sgn = draw(st.sampled_from([1, -1]))
+        cm = [["M", [x0, y0]], ["C", [x0 + a, y0 + sgn * b, x0 + a, y0 - sgn * b, x0, y0]], ["Z", []]]
+        if draw(st.booleans()):
+            q = draw(st.integers(60, 80))
+            cm += [["M", [q, 5]], ["L", [q + 15, 5]], ["L", [q + 15, 20]], ["L", [q, 20]], ["Z", []]]
+        return kind, cm
+    if kind == "minified":
+        # what minifiers write: 2-4 rectangles in ONE path, later subpaths opened by relative or absolute moveto
+        # after z, edges as any of L/l/H/h/V/v (the reference interprets the spelling itself).  Judged through
+        # the svg_types wrappers only (svg_pathops takes absolute M/L/Q/C/Z).
+        nrect = draw(st.integers(2, 4))
+        cm, cur = [], (0.0, 0.0)
+        for i in range(nrect):
+            x0, y0 = draw(st.integers(0, 70)), draw(st.integers(0, 70))
+            w, h = draw(st.integers(8, 30)), draw(st.integers(8, 30))
+            if i and draw(st.booleans()):
+                cm.append(["m", [x0 - cur[0], y0 - cur[1]]])
+            else:
+                cm.append(["M", [x0, y0]])
+            pts = [(x0 + w, y0), (x0 + w, y0 + h), (x0, y0 + h)]
+            if draw(st.booleans()):
+                pts = [(x0, y0 + h), (x0 + w, y0 + h), (x0 + w, y0)]
+            c = (x0, y0)
+            for q in pts:
+                horizontal = q[1] == c[1]
+                form = draw(st.sampled_from(["L", "l", "HV", "HV", "hv"]))
+                if form == "L":
+                    cm.append(["L", [q[0], q[1]]])
+                elif form == "l":
+                    cm.append(["l", [q[0] - c[0], q[1] - c[1]]])
+                elif form == "HV":
+                    cm.append(["H", [q[0]]] if horizontal else ["V", [q[1]]])
+                else:
+                    cm.append(["h", [q[0] - c[0]]] if horizontal else ["v", [q[1] - c[1]]])
+                c = q
+            cm.append([draw(st.sampled_from("zZ")), []])
+            cur = (x0, y0)
+        return kind, cm
     if kind == "refuser":
         # a path on which skia-pathops is known to give up (PathOpsError), moved by an integer offset
         base = draw(st.sampled_from(_REFUSERS))
@@ -337,7 +431,7 @@ def op_case(draw):
     ops = [draw(operand()) for _ in range(n)]
     # Hypothesis likes to repeat draws; identical operands fall under known finding ENGINE-COINCIDENT.
     # Shift the i-th operand by a small index-dependent offset so that repeats are merely near-identical.
-    ops = [(k, [[c, [v + (3 * i if j % 2 == 0 else 5 * i) for j, v in enumerate(a)]] for c, a in cm] if k in ("bowtie", "opposite-pair") else cm if k == "refuser" else [[c, [round(v + (0.13 * i if j % 2 == 0 else 0.29 * i), 3) for j, v in enumerate(a)]] for c, a in cm]) for i, (k, cm) in enumerate(ops)]
+    ops = [(k, [[c, [v + (3 * i if j % 2 == 0 else 5 * i) for j, v in enumerate(a)]] for c, a in cm] if k in ("bowtie", "opposite-pair", "loop") else cm if k in ("refuser", "minified") else [[c, [round(v + (0.13 * i if j % 2 == 0 else 0.29 * i), 3) for j, v in enumerate(a)]] for c, a in cm]) for i, (k, cm) in enumerate(ops)]
     rules = [draw(st.sampled_from(["nonzero", "evenodd"])) for _ in range(n)]
     repeat_rule = False
     if op != "remove_overlaps" and draw(st.integers(0, 9)) == 0:
@@ -357,6 +451,8 @@ def op_case(draw):
         repeat_rule = True
     via = draw(st.sampled_from(["pathops", "pathops", "types", "types-explicit"]))
     if op != "intersection" and via == "types-explicit":
+        via = "types"
+    if via == "pathops" and any(k == "minified" for k, _ in ops):
         via = "types"
     case = {"op": op, "via": via, "operands": [c for _, c in ops], "rules": rules, "kinds": [k for k, _ in ops]}
     if repeat_rule:
